@@ -11,7 +11,7 @@ import asyncio
 from contextvars import ContextVar
 from typing import Any
 
-from .util import Opaque, Versioned, canon, digest, mix
+from .util import Ambiguous, Opaque, Versioned, canon, digest, mix
 
 # Run label of the graph execution the current code belongs to: a tuple of
 # (graph name, digest of that run's input values, ordinal among equal digests).
@@ -306,6 +306,11 @@ class Runtime:
                 args[p]["items"].append(mix(tag, "m", sorted((k, canon(v)) for k, v in args.items() if k != p)))
                 args[p]["count"] += 1
                 vals.append([list(args[p]["items"]), args[p]["count"]])
+            elif beh == "snapshot_tuple" and j == 0:
+                # the default is a TUPLE holding a list: immutable on the outside, mutable inside
+                p = spec["beh_param"]
+                args[p][0].append(mix(tag, "m", sorted((k, canon(v)) for k, v in args.items() if k != p)))
+                vals.append(list(args[p][0]))
             elif beh == "snapshot" and j == 0:
                 # mutate the default-valued list argument, return a snapshot of it
                 p = spec["beh_param"]
@@ -512,6 +517,8 @@ def interrupt_response(spec: dict, args: dict) -> Any:
 
     def one(j: int) -> Any:
         k = kinds[j] if j < len(kinds) else None
+        if k == "ambiguous":
+            return Ambiguous(mix(tag, "resp", j, basis))
         if k in _FALSY:
             v = _FALSY[k]
             return list(v) if isinstance(v, list) else v
